@@ -148,6 +148,7 @@ type genState struct {
 	strats    []string
 	destroyed [nAppFaces]bool
 	nDestroy  int
+	weights   []int // nil: the default mix of command kinds
 }
 
 type routeKeyS struct {
@@ -221,6 +222,9 @@ func (g *genState) genOp() Op {
 	kinds := []string{"rib-reg", "rib-unreg", "fib-add", "fib-rm", "st-set", "st-unset", "cs-config",
 		"face-update", "face-destroy", "face-create", "dataset", "unknown", "query"}
 	weights := []int{12, 6, 8, 5, 9, 4, 7, 16, 3, 6, 12, 5, 2}
+	if g.weights != nil {
+		weights = g.weights
+	}
 	kind := weighted(t, "kind", kinds, weights)
 	op := Op{Form: "signed"}
 	switch kind {
@@ -483,7 +487,18 @@ func (g *genState) genOp() Op {
 	return op
 }
 
-func genCase(t *rapid.T) Case {
+// Profiles for the units that look at the management layer on behalf of C06 (routes are
+// registered through fw/mgmt/rib.go) and C07 (the capacity is lowered through fw/mgmt/cs.go).
+var (
+	weightsRib = []int{30, 14, 2, 1, 1, 1, 1, 3, 6, 1, 10, 1, 0}
+	weightsCs  = []int{3, 1, 2, 1, 2, 1, 40, 3, 1, 1, 14, 2, 0}
+)
+
+func genCaseRib(t *rapid.T) Case { return genCaseW(t, weightsRib) }
+func genCaseCs(t *rapid.T) Case  { return genCaseW(t, weightsCs) }
+func genCase(t *rapid.T) Case    { return genCaseW(t, nil) }
+
+func genCaseW(t *rapid.T, weights []int) Case {
 	c := Case{
 		Threads:  pick(t, "threads", []int{1, 1, 2, 3}),
 		Localhop: pct(t, "localhop", 50),
@@ -495,7 +510,7 @@ func genCase(t *rapid.T) Case {
 		maxOps = 24
 	}
 	n := 1 + uni(t, "nops", maxOps)
-	g := &genState{t: t, c: &c}
+	g := &genState{t: t, c: &c, weights: weights}
 	for i := 0; i < n; i++ {
 		op := g.genOp()
 		// lets the shrinker delete any single command (all-zero bits = dropped)
